@@ -143,22 +143,64 @@ def run_case(c):
                     return {"ok": False, "evaluations": n, "detail": f"SwitcherBreezeCommand length for {L} bytes: {cmd.length}"}
         return {"ok": True, "evaluations": n}
     if k == "manager":
+        # two managers on two database files that use the SAME ids for different sets; ids requested in an interleaved order,
+        # repeated, one unknown id in between: every remote returned must be the remote of that id in that manager's file
         rnd = random.Random(i["seed"])
-        db = {}
-        for j in range(3):
-            s = gen_irset(rnd, 0.3)
-            s["IRSetID"] = f"TEST{j:04d}"
-            db[s["IRSetID"]] = s
+        ids = [f"TEST{j:04d}" for j in range(4)]
+        dbs = []
+        for _ in range(2):
+            db = {}
+            for rid in ids:
+                s_ = gen_irset(rnd, 0.3)
+                s_["IRSetID"] = rid
+                db[rid] = s_
+            dbs.append(db)
         d = tempfile.mkdtemp(prefix="pyvc_ir_")
-        p = os.path.join(d, "db.json")
+        paths = [os.path.join(d, f"db{j}.json") for j in range(2)]
+        n = 0
         try:
-            json.dump(db, open(p, "w"))
-            m = SwitcherBreezeRemoteManager(p)
-            a = m.get_remote("TEST0001")
-            b = m.get_remote("TEST0001")
-            ok = a is b and a.remote_id == "TEST0001" and set(a.supported_modes) == capabilities_spec(db["TEST0001"])["modes"]
-            return {"ok": ok, "evaluations": 2}
+            for p, db in zip(paths, dbs):
+                with open(p, "w") as fd:
+                    json.dump(db, fd)
+            ms = [SwitcherBreezeRemoteManager(p) for p in paths]
+            plan = [(0, ids[1]), (0, ids[1]), (0, ids[2]), (1, ids[1]), (0, "NOPE0000"), (1, ids[0]), (0, ids[1]), (1, "NOPE0000"), (0, ids[0]),
+                    (1, ids[2]), (0, ids[3]), (0, "NOPE0000"), (1, ids[3]), (0, ids[2]), (1, ids[1])]
+            plan += [(rnd.randrange(2), rnd.choice(ids + ["NOPE0000"])) for _ in range(20)]
+            first = {}
+            for step, (mi, rid) in enumerate(plan):
+                n += 1
+                where = f"step {step}: manager {mi}.get_remote({rid!r}) after {plan[:step]}"
+                try:
+                    r = ms[mi].get_remote(rid)
+                except KeyError as e:
+                    if rid in dbs[mi]:
+                        return {"ok": False, "evaluations": n, "detail": where + " raised " + exc_name(e)}
+                    continue
+                except Exception as e:
+                    return {"ok": False, "evaluations": n, "detail": where + " raised " + exc_name(e)}
+                if rid not in dbs[mi]:
+                    return {"ok": False, "evaluations": n, "detail": where + " returned a remote for an id the file does not hold"}
+                irset = dbs[mi][rid]
+                caps = capabilities_spec(irset)
+                got = {"modes": set(r.supported_modes), "min": r.min_temperature, "max": r.max_temperature,
+                       "toggle": r.on_off_type, "sep": r.separated_swing_command}
+                if r.remote_id != rid or got != caps:
+                    return {"ok": False, "evaluations": n, "detail": where + ": capabilities / id of another set", "outcome": str(got),
+                            "expected": str(caps)}
+                if first.setdefault((mi, rid), r) is not r:
+                    return {"ok": False, "evaluations": n, "detail": where + ": not the remote loaded earlier for this id"}
+                W = {}
+                for w in irset["IRWaveList"]:
+                    W[w["Key"]] = {"Para": w["Para"], "HexCode": w["HexCode"]}
+                for _ in range(15):
+                    ok, req, why = check_request(r, W, caps, rnd)
+                    n += 1
+                    if not ok:
+                        return {"ok": False, "evaluations": n, "detail": where + ": " + why, "request": req}
+            return {"ok": True, "evaluations": n}
         finally:
-            os.unlink(p)
+            for p in paths:
+                if os.path.exists(p):
+                    os.unlink(p)
             os.rmdir(d)
     raise ValueError(k)
